@@ -85,7 +85,7 @@ theorem assign1B_ok {x : Var} {e : Expr} {s s' : St} {a : Unit}
 theorem varAssignment_top {n v : String} {g : Bool} {s s' : St} (h0 : s.funcs = []) (h : varAssignment n v g s = .ok ((), s')) :
     Adv s s' [.set n v] 0 := by
   simp [varAssignment, bind, Tr.get, addLine, h0, varName, inFunction] at h
-  rw [← h]; exact ⟨rfl, rfl, h0.symm, rfl, rfl, rfl, rfl, rfl, rfl, by simp [plainB]⟩
+  rw [← h]; exact ⟨rfl, rfl, h0.symm, rfl, rfl, rfl, rfl, rfl, rfl, by simp [plainB], EnvExt.of_eq rfl rfl rfl rfl rfl rfl rfl rfl rfl rfl⟩
 
 theorem stepB_set {t v : String} {k : Nat} {ρ : Store} (out : List String) (x : String) (h : HoldsD t v k ρ) :
     stepB (.set x t) ⟨ρ, out⟩ = some (.normal, ⟨ρ.set x v, out⟩) := by
@@ -199,7 +199,7 @@ theorem callEcho_top {vals : List String} {s s' : St} (h0 : s.funcs = []) (h : c
   simp [callEcho, callFunc, setGlobalArgs, varAssignment, bind, Tr.get, Tr.modify, addLine, h0, varName, inFunction,
     funcArgVar, trimLeftColon, pure] at h
   rw [← h]
-  exact ⟨rfl, rfl, h0.symm, rfl, rfl, rfl, rfl, rfl, rfl, by simp [plainB]⟩
+  exact ⟨rfl, rfl, h0.symm, rfl, rfl, rfl, rfl, rfl, rfl, by simp [plainB], EnvExt.of_eq rfl rfl rfl rfl rfl rfl rfl rfl rfl rfl⟩
 
 theorem fa0_ne_helper (k : Nat) : "_fa0" ≠ helperName k := by
   intro e
@@ -249,7 +249,7 @@ theorem panicOp_top {v : String} {s s' : St} (h0 : s.funcs = []) (h : panicOp v 
   simp [panicOp, callEcho, callFunc, setGlobalArgs, varAssignment, bind, Tr.get, Tr.modify, addLine, h0, varName, inFunction,
     funcArgVar, trimLeftColon, pure] at h
   rw [← h]
-  exact ⟨rfl, rfl, h0.symm, rfl, rfl, rfl, rfl, rfl, rfl, by simp [plainB]⟩
+  exact ⟨rfl, rfl, h0.symm, rfl, rfl, rfl, rfl, rfl, rfl, by simp [plainB], EnvExt.of_eq rfl rfl rfl rfl rfl rfl rfl rfl rfl rfl⟩
 
 theorem panicB_sem {e : Expr} {s s' : St} (h0 : s.funcs = [])
     (h : (do let r ← Tr.evalExpr conv e true; conv.panic s!"panic: {firstValue r}" : BM Unit) s = .ok ((), s')) :
